@@ -80,6 +80,28 @@ Theorem hht_newmark_sysop_is_weighted_sum : forall x y i,
   (G hht_newmark_sysop y) x i = hht_newmark_A x i.
 Proof. unfold hht_newmark_A; vf. Qed.
 
+(* homogeneity (scale invariance): the step is linear in (u_n, v_n, a_n, bN, F) and the unknown -- multiplying them
+   all by s multiplies the right-hand side, the system row, the evaluation-point states and the returned state by s;
+   so s x solves the scaled system wherever x solves the original one, and the scaled step returns s times the state *)
+Local Notation GS f s y := (f I K C M dt beta gamma alpha (vscal s u_n) (vscal s v_n) (vscal s a_n) y (vscal s bN) (vscal s F)).
+Theorem hht_newmark_step_homogeneous : forall s x i,
+  GS hht_newmark_rhs s (vscal s x) i = s * G hht_newmark_rhs x i /\
+  (GS hht_newmark_sysop s (vscal s x)) (vscal s x) i = s * hht_newmark_A x i /\
+  GS hht_newmark_up_u s (vscal s x) i = s * G hht_newmark_up_u x i /\
+  GS hht_newmark_up_v s (vscal s x) i = s * G hht_newmark_up_v x i /\
+  GS hht_newmark_up_a s (vscal s x) i = s * G hht_newmark_up_a x i /\
+  GS hht_newmark_ev_ut s (vscal s x) i = s * G hht_newmark_ev_ut x i /\
+  GS hht_newmark_ev_vt s (vscal s x) i = s * G hht_newmark_ev_vt x i /\
+  GS hht_newmark_ev_at s (vscal s x) i = s * G hht_newmark_ev_at x i.
+Proof. intros; unfold hht_newmark_A; repeat split; vf. Qed.
+
+Theorem hht_newmark_scaled_solution : forall s x i,
+  hht_newmark_A x i = G hht_newmark_rhs x i ->
+  (GS hht_newmark_sysop s (vscal s x)) (vscal s x) i = GS hht_newmark_rhs s (vscal s x) i.
+Proof.
+  intros s x i H. destruct (hht_newmark_step_homogeneous s x i) as [E1 [E2 _]]. rewrite E1, E2, H. reflexivity.
+Qed.
+
 (* row i of the system minus row i of the right-hand side of _Solver_Apply_Neumann
    = residual of the equation of motion at dof i *)
 Theorem hht_newmark_eom_identity : forall x i,
@@ -125,6 +147,8 @@ Print Assumptions hht_newmark_update_displacement.
 Print Assumptions hht_newmark_eval_consistent.
 Print Assumptions hht_newmark_coefs_are_derivatives.
 Print Assumptions hht_newmark_sysop_is_weighted_sum.
+Print Assumptions hht_newmark_step_homogeneous.
+Print Assumptions hht_newmark_scaled_solution.
 Print Assumptions hht_newmark_eom_identity.
 Print Assumptions hht_newmark_discrete_eom.
 Print Assumptions hht_newmark_newton_consistent.
